@@ -110,7 +110,15 @@ def r1(ctx):
         raise AnchorError("cast census found only %d narrowing casts" % n)
     stale = set(tr) - used
     for s_ in sorted(stale):
-        ctx.note("stale entry in c10_truncations.tsv: %s" % (s_,))
+        if tr[s_].startswith("IEEE 1815 / property C10"):
+            # a truncation the PROPERTY asks for ("counters keep their low 16 bits"): its disappearance (saturation, a checked
+            # conversion, a different operand) changes what the master receives
+            ctx.bad("required-truncation@%s" % s_[0], "the 16-bit counter variation written by %s no longer carries `%s as u16` (the low 16 bits of the counter): %s" % (s_[0], s_[2], tr[s_]), "")
+        else:
+            ctx.note("stale entry in c10_truncations.tsv: %s" % (s_,))
+    for s_ in sorted(used):
+        if tr[s_].startswith("IEEE 1815 / property C10"):
+            ctx.ok("required-truncation@%s" % s_[0], "counter keeps its low 16 bits")
 
 
 MINMAX = {"to_i16": ("i16", -32768, 32767), "to_i32": ("i32", -2147483648, 2147483647), "to_f32": ("f32", None, None)}
@@ -289,6 +297,27 @@ def r5(ctx):
                 ok = st.rv["var"] == kind
         ctx.check(ok, "cto:%s:kind" % fn_, "%s yields Time::%s" % (fn_, kind), fb[0].where(line=fb[0].line) if fb else "")
     ib = prog.body("master::extract::extract_measurements_inner")
+    # a CTO stays in effect until the next CTO object: for every header that is not a g51 object handle() hands the running CTO on
+    hh = [b for b in prog.bodies.values() if b.path.endswith("extract_measurements_inner::handle")]
+    if len(hh) != 1:
+        raise AnchorError("extract_measurements_inner::handle")
+    hsym = ctx.sym(hh[0])
+    plain = [(b, e) for b, si, st, e in ret_sites(hh[0], hsym) if not mentions_call(e, r"extract_cto_g51v[12]$")]
+    ctx.check(len(plain) >= 1 and all(e in (("param", "cto"), ("var", "cto")) for _, e in plain), "cto:carried-over", "a non-CTO header leaves the running CTO unchanged (%s)" % [expr_str(e)[:30] for _, e in plain], hh[0].where(line=hh[0].line), bad_detail="handle() returns %s after a non-CTO header: the common time of occurrence no longer applies to the headers that follow" % [expr_str(e)[:40] for _, e in plain])
+    # and the outstation opens every g2v3 / g4v3 header with its own g51 object: nothing but `uses_cto()` (and the choice between
+    # g51v1 and g51v2) decides whether the CTO header is written
+    k_ = 0
+    for wb_ in prog.bodies.values():
+        if "EventWriter::start_new_header" not in wb_.path:
+            continue
+        for c in call_sites(wb_, r"EventWriter::write_cto_header$"):
+            k_ += 1
+            gs_ = [g for g in ctx.guards_at(wb_, c.idx)]
+            extra = [g for g in gs_ if not ((g.kind == "bool" and (mentions_call(g.a, r"::uses_cto$") or mentions_call(g.a, r"Time::is_synchronized$"))) or (g.kind == "is" and mentions_call(g.a, r"::get_time$|unwrap_or_else$")))]
+            uses = any(g.kind == "bool" and g.truth is True and mentions_call(g.a, r"::uses_cto$") for g in gs_)
+            ctx.check(uses and not extra, "cto:header-always-written#%d" % k_, "the g51 header is written whenever the variation uses a CTO", wb_.where(c.idx), bad_detail="writing the CTO header also depends on %s: a g2v3/g4v3 header can go out without its own common time of occurrence" % [repr(g)[:60] for g in extra])
+    if k_ < 2:
+        raise AnchorError("write_cto_header sites: %d" % k_)
     # the running CTO is threaded through the headers in order: fold(None, |cto, h| handle(cto, h, ..)) or the same as a loop
     # `cto = handle(cto, h, ..)` - either way handle() receives the accumulator and its result becomes the accumulator
     hcalls = []
@@ -426,6 +455,32 @@ def r8(ctx):
     import c09
     c09.r10(ctx)
 
+def r9(ctx):
+    """The two copies of a point are not interchangeable: `current` is the live value that updates write and that every reader of
+    the database (Database::get, update_flags building its new measurement) must see; `selected` is the snapshot frozen for a READ in
+    progress, read only by the response writer (C11.R1). A getter that returns the snapshot pairs new flags with a stale value."""
+    prog = ctx.prog
+    gb = prog.body("range::static_db::StaticDatabase::get")
+    cur = sel = 0
+    for bd in family(prog, gb):
+        for blk, p, rw in bd.places():
+            if rw != "r":
+                continue
+            if ".current" in p.proj:
+                cur += 1
+            if ".selected" in p.proj and not (p.ty and ("SelectionQueue" in p.ty or "VecDeque" in p.ty)):
+                sel += 1
+    ctx.check(cur >= 1 and sel == 0, "get:reads-current", "StaticDatabase::get returns the live value (current: %d reads, selected: %d reads)" % (cur, sel), gb.where(line=gb.line), bad_detail="StaticDatabase::get reads Point::selected (%d) / Point::current (%d): it returns the snapshot of the last READ instead of the live value" % (sel, cur))
+    # updates write `current` (and only selection copies current -> selected)
+    ub = prog.body("range::static_db::StaticDatabase::update")
+    wr = set()
+    for bd in family(prog, ub):
+        for blk, p, rw in bd.places():
+            if rw == "w" and (".current" in p.proj or ".selected" in p.proj):
+                wr.add(".current" if ".current" in p.proj else ".selected")
+    ctx.check(wr == {".current"}, "update:writes-current", "StaticDatabase::update writes Point::current only (%s)" % sorted(wr), ub.where(line=ub.line))
+
+
 RULES = [
     ("C10.R1", "T10", "census of narrowing casts: range-guarded or listed truncation", r1),
     ("C10.R2", "T2", "saturating analog conversions return MIN/MAX with OVER_RANGE", r2),
@@ -435,4 +490,5 @@ RULES = [
     ("C10.R6", "T8-namesake", "conversions fill value/flags/time from the like-named source", r6),
     ("C10.R7", "T8", "the wire flag octet of stateful points carries the value in its state bit(s) on every path", r7),
     ("C10.R8", "T3", "a static range cut by a full fragment keeps its stop index consistent with the data written (shared with C09.R10)", r8),
+    ("C10.R9", "T5", "database getters and updates use the live value (current), never the READ snapshot (selected)", r9),
 ]
